@@ -89,7 +89,11 @@ func allowExternalObserver(ci engine.CallInfo) bool {
 func runC09(c *engine.Ctx) {
 	r1 := c.Rule("R1", "every wire response is established to belong to the sending peer (status.p == p, or no such request) before any effect: hooks, sends, status or loader updates, cancel/terminate (default-deny escape)", 1)
 	r2 := c.Rule("R2", "a peer filter exists: some function on the response path returns only elements appended under entry.p == p", 1)
+	c09Rules(c, r1, r2)
+}
 
+// c09Rules evaluates the requestor-side peer-routing rules (also used as C01.R6).
+func c09Rules(c *engine.Ctx, r1, r2 string) {
 	table := c.P.Field("requestmanager", "RequestManager", "inProgressRequestStatuses")
 	peerF := c.P.Field("requestmanager", "inProgressRequestStatus", "p")
 	resp := c.P.NamedType("message", "GraphSyncResponse")
@@ -117,6 +121,9 @@ func runC09(c *engine.Ctx) {
 	}
 	for n := range cfg.Analysed {
 		c.Analysed(n)
+	}
+	if r2 == "" {
+		return
 	}
 	// R2: existence of a sanitising filter reached from the root with tainted input and clean output.
 	found := 0
